@@ -152,8 +152,10 @@ def run(ctx) -> None:
     no_exit = bool(lps)
     for p in lps:
         edges = prim(p, lambda c: call_name(c) == "edge")
-        good = len(edges) == 1 and [u(a) for a in edges[0].value.args[:2]] == [f"self._out_port_name({lpar[0]})", f"self._in_port_name({lpar[1]})"] \
-            and kwarg(edges[0].value, "label") is not None and u(edges[0].value.func.value) == lpar[3]
+        # graphviz: Digraph.edge(tail_name, head_name, label=None, **attrs)
+        ends = [kwarg(edges[0].value, "tail_name", 0), kwarg(edges[0].value, "head_name", 1)] if len(edges) == 1 else []
+        good = len(edges) == 1 and all(e_ is not None for e_ in ends) and [u(a) for a in ends] == [f"self._out_port_name({lpar[0]})", f"self._in_port_name({lpar[1]})"] \
+            and kwarg(edges[0].value, "label", 2) is not None and u(edges[0].value.func.value) == lpar[3]
         ok = ok and good
         kinds = [t for t, k in p.tests if k and isinstance(t, ast.Call) and u(t.func) == "isinstance" and u(t.args[0]) == lpar[2]]
         never = any(isinstance(e, ast.Expr) and isinstance(e.value, ast.Call) and u(e.value.func) == "assert_never" for e in p.effects)
@@ -161,7 +163,7 @@ def run(ctx) -> None:
             from ..paths import _isinstance_parts
             handled |= {x.split(".")[-1] for x in _isinstance_parts(kinds[-1])[1]}
             if "ValueKind" in u(kinds[-1].args[1]) and good:
-                ok_val = u(kwarg(edges[0].value, "label")) in (f"str({lpar[2]}.ty)", f"f'{{{lpar[2]}.ty}}'")
+                ok_val = u(kwarg(edges[0].value, "label", 2)) in (f"str({lpar[2]}.ty)", f"f'{{{lpar[2]}.ty}}'")
         elif not never:
             no_exit = False
         if p.kind != "fall":
